@@ -16,12 +16,17 @@ package message
 
 //@ func (*ReadWriter).Read returns (msg, err)
 //@   requires rw != nil && m != nil
-//@   ensures  (err == nil) == ufDecodable(ufCodecId(rw), m.Payload, isV2)
-//@   ensures  err == nil ==> msg != nil
-//@   ensures  err != nil ==> msg == nil
+//@   requires forall j int :: 0 <= j && j < len(rw.fields) ==> rw.fields[j] != nil
+//@   ensures  [v1-exact-length] !isV2 && len(m.Payload) != int(rw.sizeNormal) ==> err != nil && msg == nil
+//@   ensures  [result-xor-error] (msg != nil) == (err == nil)
+//@   ensures  [caller-buffer-untouched] unchangedBytes(m.Payload)
+//@   defines  (err == nil) == ufDecodable(ufCodecId(rw), m.Payload, isV2)
 //@   modifies nothing
-//@   trusted
-//@   assumes  decoding is a function of (codec, payload bytes, version); "modifies nothing" is the C04 frame claim, decided there
+//@   loop 0 bind i int = rangeindex
+//@   loop 0 invariant -1 <= i && i < len(rw.fields)
+//@   loop 1 bind payload []byte
+//@   loop 1 invariant true
+//@   assumes  decoding is a function of (codec, payload bytes, version): the clause `(err == nil) == ufDecodable(...)` DEFINES ufDecodable for callers and is not an obligation here
 
 //@ func (*ReadWriter).Write
 //@   requires rw != nil && msg != nil
@@ -30,3 +35,27 @@ package message
 //@   modifies nothing
 //@   trusted
 //@   assumes  msg has the dynamic type the codec was initialised with (otherwise reflect panics; the public API does not check it)
+
+//@ func removeEmptyBytes
+//@   ensures  sameArray(res, buf) && len(res) <= len(buf)
+//@   ensures  len(buf) >= 1 ==> len(res) >= 1
+//@   ensures  len(buf) == 0 ==> len(res) == 0
+//@   ensures  forall k int :: len(res) <= k && k < len(buf) ==> buf[k] == 0
+//@   ensures  len(res) > 1 ==> buf[len(res)-1] != 0
+//@   canary   len(res) == len(buf)
+//@   modifies nothing
+//@   loop 0 bind end int
+//@   loop 0 invariant 0 <= end && end <= len(buf) && (len(buf) >= 1 ==> end >= 1) && (len(buf) == 0 ==> end == 0)
+//@   loop 0 invariant forall k int :: end <= k && k < len(buf) ==> buf[k] == 0
+//@   loop 0 decreases end
+
+//@ func readValue
+//@   modifies nothing
+//@   trusted
+//@   assumes  readValue writes only through the reflect target (never to buf or any other byte array); its result and its own bounds checks are not decided here (see C03/C04 notes)
+
+//@ func (*ReadWriter).size
+//@   requires rw != nil
+//@   ensures  isV2 ==> res == rw.sizeExtended
+//@   ensures  !isV2 ==> res == rw.sizeNormal
+//@   modifies nothing
